@@ -42,7 +42,7 @@ Z3NEW = os.environ.get('PYVC_Z3NEW', 'z3-new')
 def solve_one(job):
     """job = (key, [smt2 text variants: lightest first, full last], timeout_s, canary, _) -> dict.
     Every back end runs as a separate process with a hard timeout (in-process z3 does not honour timeouts inside E-matching loops)."""
-    key, txts, timeout, canary, _ = job
+    key, txts, timeout, canary, mode = job
     if isinstance(txts, str): txts = [txts]
     log = []
     result = 'unknown'; backend = None; model = None
@@ -50,6 +50,7 @@ def solve_one(job):
     stages = []
     full = txts[-1]
     if canary: stages = [('z3-5.1', timeout, full)]
+    elif mode == 'retry': stages = [('z3-5.1', timeout, full), ('z3-4.8', timeout, full)]
     else:
         for v in txts[:-1]: stages.append(('z3-5.1', min(5.0, timeout), v))       # lighter axiom sets first (sound: fewer assumptions)
         stages.append(('z3-5.1', 10.0 if timeout > 12 else timeout, full))
@@ -70,7 +71,7 @@ def solve_one(job):
         except Exception: model = None
     return dict(key=key, result=result, backend=backend, model=model, log=log, wall=time.time() - t_all)
 
-def discharge(obls, axioms=(), timeout=60, canary_timeout=4, jobs=None, thorough=False, budgets=None):
+def discharge(obls, axioms=(), timeout=60, canary_timeout=4, jobs=None, thorough=False, budgets=None, mode=None):
     """obls: list of Obligation.  Returns list of result dicts in the same order."""
     jobs = jobs or min(16, os.cpu_count() or 4)
     work = []
@@ -84,7 +85,7 @@ def discharge(obls, axioms=(), timeout=60, canary_timeout=4, jobs=None, thorough
                     if 'ring' in ob.axgroups and len(ob.axgroups) > 1: variants.append(to_smt2(ob, axioms, g, groups=[x for x in ob.axgroups if x != 'ring']))
                     variants.append(to_smt2(ob, axioms, g))
                 else: variants = [to_smt2(ob, axioms, g)]
-                work.append(((k, c), variants, (budgets[k] if budgets else timeout), False, None))
+                work.append(((k, c), variants, (budgets[k] if budgets else timeout), False, mode))
     if not work: return []
     if jobs == 1 or len(work) < 4:
         res = [solve_one(w) for w in work]
